@@ -67,6 +67,7 @@ func checkC16(c *Ctx, r *Report) {
 		"R1/R2 in every module function reachable (call graph) from the untrusted-input roots — request handling, size/duration/PHC/config parsers, janitor loop, config-change handlers — each index, slice, force-unwrap, unchecked type assertion, variable divisor, variable make size, WriteHeader/Ticker precondition, explicit panic and close() is an obligation, discharged by a dominating test on the same SSA values or by a one-line reviewed table entry",
 		"R4 every path through processRequest writes a response (Write/WriteError/WriteEmpty or a callee that does) before returning",
 		"R5 obligations that execute in bare goroutines are marked process-fatal",
+		"R8 a request addressed to the proxy's own listening address (compared through http.LocalAddrContextKey) is refused before it is fetched: it would wait for itself forever",
 		"R7 type invariant behind the force-unwrap discharges: no zero-valued Either (neither side set) is materialised outside package typeutils, so `!IsLeft()` implies the right side",
 		"R6 at most one response per request: a write that follows a callee which may already have answered is reachable only under error classes that callee reports without having written (so the client never finds a stray second response in place of its next answer)",
 	}
@@ -175,6 +176,51 @@ func checkC16(c *Ctx, r *Report) {
 	}
 	r.OkT("C16.R7", "no zero-valued Either outside package typeutils", "-", fmt.Sprintf("%d module functions scanned, %d Either-typed values, all produced by Left/Right, calls or copies", nFns7, nEither))
 	r.Floor("C16.R7", nEither, 2, "Either-typed values")
+
+	// ---- R8: a request that names the proxy itself as its origin is refused. Forwarded, it arrives at the proxy again with
+	// the same cache key and is coalesced onto the fetch that is waiting for it: nobody ever answers, and every later
+	// request for that URL hangs too. handleHTTP reaches processRequest only where a test that compares the request's
+	// host with the address the request arrived on (http.LocalAddrContextKey) says "not my own address".
+	for _, f := range c.FuncsNamed("(*reservoir/proxy.Proxy).handleHTTP") {
+		pr := findCall(f, "(*reservoir/proxy.Proxy).processRequest")
+		if pr == nil {
+			r.Undecided("C16.R8", "handleHTTP: processRequest", c.Pos(f.Pos()), "unresolved anchor")
+			continue
+		}
+		guarded := false
+		for _, fc := range factsAt(f, pr) {
+			if fc.truth {
+				continue
+			}
+			// the refused side: a condition (possibly a same-package predicate) that looks at the local address and at the host
+			sawLocal, sawHost := false, false
+			scan := func(g *ssa.Function) {
+				eachInstr(g, func(in ssa.Instruction) {
+					switch x := in.(type) {
+					case *ssa.UnOp:
+						if gl, ok := x.X.(*ssa.Global); ok && gl.Name() == "LocalAddrContextKey" {
+							sawLocal = true
+						}
+					case *ssa.FieldAddr:
+						if fv, _, is := fieldOf(x); is && fv.Name() == "Host" && structName(x.X.Type()) == "net/http.Request" {
+							sawHost = true
+						}
+					}
+				})
+			}
+			if call, ok := fc.cond.(*ssa.Call); ok {
+				if h := helperBody(call); h != nil {
+					for _, g := range pkgGroup(li, h) {
+						scan(g)
+					}
+				}
+			}
+			if sawLocal && sawHost {
+				guarded = true
+			}
+		}
+		r.Check(guarded, "C16.R8", "a request addressed to the proxy's own listening address is refused", c.InstrPos(pr), "processRequest lies on the false edge of a test over http.LocalAddrContextKey and the request's Host", "a request whose origin is the proxy itself (`GET http://<proxy address>/x` through the proxy) is forwarded: the forwarded copy has the same cache key, joins the fetch that is waiting for it, and neither is ever answered; later requests for the URL hang as well")
+	}
 
 	checkAnswered(c, r, li, "C16.R4")
 	if c.Tier == "thorough" {
